@@ -64,6 +64,12 @@ def w_forms(cfg):
     vals = []
     for k in range(-90, 91):
         vals += [k, float(k), np.float64(k), np.int64(k), np.float32(k), np.float32(k + 0.3) if k < 90 else np.float32(89.7)]
+    for k in range(-90, 91):        # narrow integer types (the arithmetic must not be carried out in their precision)
+        vals += [np.int8(k), np.int16(k), np.int32(k)] + ([np.uint8(k), np.uint16(k)] if k >= 0 else [])
+    for nl in range(2, 60):         # the float32 numbers next to every transition latitude, judged at the double they convert to
+        x = np.float32(float(C.TRANS[nl]))
+        for v in (x, np.nextafter(x, np.float32(100)), np.nextafter(x, np.float32(-100))):
+            vals += [np.float32(v), np.float32(-v)]
     vals += [-0.0, np.float64(-0.0), np.float32(87.0), np.float32(86.99), np.float32(87.01), True, np.float64(10.470475), np.float32(10.5)]
     for v in vals:
         acc.n += 1
